@@ -75,6 +75,33 @@ theorem drop_stops_expiry (now : Int) (c : Coll) :
         ∀ ix ∈ c'.ttlIndexes, ix.name ≠ name) :=
   Proofs.C09.drop_stops_expiry now c
 
+/-- **Only existing indexes expire documents**: a `create_index` that is refused (duplicates
+    under a unique key, a name taken with other options, …) does not come into being in any
+    respect, whatever options it carried - `expireAfterSeconds` included: the listed indexes and
+    the TTL indexes are what they were, and the collection is left as it was or as the expiry
+    pass of the indexes that DO exist leaves it (the scan of a unique index reads the store). -/
+theorem refused_creation_inert (now : Int) (c : Coll) (ix : Index) (e : Err)
+    (h : (createIndexColl now c ix).2 = .error e) :
+    (createIndexColl now c ix).1.indexes = c.indexes ∧
+    (createIndexColl now c ix).1.ttlIndexes = c.ttlIndexes ∧
+    ((createIndexColl now c ix).1 = c ∨ expire now c = .ok (createIndexColl now c ix).1) :=
+  Proofs.C09.refused_creation_inert now c ix e h
+
+/-- non-vacuity: a unique TTL index of 5 s over two documents with the same date is refused; an
+    hour later both documents are still there -/
+example :
+    let c : Coll := {
+      docs := [(.int 1, .doc [("_id", .int 1), ("t", .date 1600000000000000 none)]),
+               (.int 2, .doc [("_id", .int 2), ("t", .date 1600000000000000 none)])] }
+    let ix : Index := { name := "t_1", keys := [("t", .int 1)], unique := true, ttl := some (.int 5) }
+    (match createIndexColl 1600000000000000 c ix with
+     | (c', .error .dupKey) =>
+       c'.ttlIndexes.isEmpty && c'.indexes.isEmpty &&
+       (match expire 1600003600000000 c' with
+        | .ok c'' => c''.docs.map (·.1) == [.int 1, .int 2]
+        | .error _ => false)
+     | _ => false) = true := by decide +kernel
+
 /-! ## Extension: the operations of the extended step `stepX` (FindModify.lean)
 
 find_one with sort / projection, find_one_and_update / _replace / _delete, bulk_write and the
